@@ -164,7 +164,7 @@ class Ctx:
                 other = self.module_env(r[0], unroll)
                 attrs = tuple(sorted(((k, v) for k, v in other.items() if T.concrete(v)), key=lambda kv: kv[0]))
                 gv[name] = ('obj', ('g', name), attrs)
-        pe = self.pe(rel, unroll=unroll, global_values=gv)
+        pe = self.pe(rel, unroll=unroll, global_values=gv, module_mode=True)
         body = [s for s in m.tree.body if not _is_main_guard(s) and not isinstance(s, (ast.Import, ast.ImportFrom))]
         env = {}
         try:
@@ -183,7 +183,7 @@ class Ctx:
 
     def class_env(self, rel, cname, unroll=4096):
         c = self.repo.cls(rel, cname)
-        pe = self.pe(rel, unroll=unroll)
+        pe = self.pe(rel, unroll=unroll, module_mode=True)
         env = dict(self.module_env(rel))
         body = [s for s in c.body if isinstance(s, (ast.Assign, ast.AugAssign, ast.For, ast.If))]
         pe.run_block(body, env)
